@@ -16,7 +16,8 @@ CONSTANTS W, MaxBits, MaxShift,
                           \* FALSE: the move operations leave the source empty (proposed fix C03-03)
           ObserveMoved,   \* TRUE: the moved-from object is kept and observed (re = 0 moves are explored)
           Targets,        \* objects the model checker applies operations to
-          OtherSeqs       \* bit sequences the non-target object may be given directly
+          OtherSeqs,      \* bit sequences the non-target object may be given directly
+          SplitNext       \* TRUE: the factored next-state relation (see NextSplit) - two-object coverage without the square
 
 VARIABLES buf,   \* buf[k]: sequence of blocks; a block is a function 1..W -> {0,1} (bit j-1 at index j)
           msz,   \* msz[k]: m_size
@@ -269,24 +270,37 @@ Init == /\ buf = <<<<>>, <<>>>> /\ msz = <<0, 0>> /\ kind = <<"own", "own">>
         /\ last = [op |-> "Init", k |-> 0, a |-> NoArg, res |-> Void]
         /\ pre = [obj |-> <<<<>>, <<>>>>, kind |-> <<"own", "own">>]
 
-NextK(k) ==
-    \/ CtorDefault(k) \/ CtorAlloc(k) \/ CtorCopy(k) \/ Clear(k) \/ PopBack(k) \/ MaxSize(k)
+\* calls whose effect depends on (or changes) BOTH objects
+NextPair(k) ==
+    \/ CtorCopy(k)
     \/ \E sf \in {0, 1} : CopyAssign(k, sf)
     \* calls that change the other object as well: only where both objects are targets (the single-target
-    \* configurations keep the second object inside OtherSeqs)
-    \/ Targets = {1, 2} /\ \E how \in {"member", "std", "adl"}, sf \in {0, 1} : Swap(k, how, sf)
-    \/ Targets = {1, 2} /\ \E re \in (IF ObserveMoved THEN {0, 1} ELSE {1}) : CtorMove(k, re) \/ MoveAssign(k, re)
-    \/ \E n \in Sizes : CtorN(k, n) \/ Resize1(k, n) \/ ResizeView(k, n) \/ Reserve(k, n)
-    \/ Reserve(k, MaxBits + W)
-    \/ \E n \in Sizes, v \in Bit : CtorNV(k, n, v) \/ AssignNV(k, n, v) \/ Resize(k, n, v)
-    \/ \E b \in BitSeqs(MaxBits) : CtorIL(k, b) \/ AssignIL(k, b)
-    \/ \E bl \in LimbSeqs(MaxBits \div W) : CtorBlocks(k, bl) \/ AssignBlocks(k, bl)
+    \* configurations keep the second object inside OtherSeqs), or in the factored relation with OtherSeqs = all sequences
+    \/ (Targets = {1, 2} \/ SplitNext) /\ \E how \in {"member", "std", "adl"}, sf \in {0, 1} : Swap(k, how, sf)
+    \/ (Targets = {1, 2} \/ SplitNext) /\ \E re \in (IF ObserveMoved THEN {0, 1} ELSE {1}) : CtorMove(k, re) \/ MoveAssign(k, re)
+    \/ \E sf \in {0, 1} : AndEq(k, sf) \/ OrEq(k, sf) \/ XorEq(k, sf) \/ And(k, sf) \/ Or(k, sf) \/ Xor(k, sf)
+
+\* calls on one object whose effect does not depend on the current content of that object (constructors)
+NextCtor(k) ==
+    \/ CtorDefault(k) \/ CtorAlloc(k)
+    \/ \E n \in Sizes : CtorN(k, n)
+    \/ \E n \in Sizes, v \in Bit : CtorNV(k, n, v)
+    \/ \E b \in BitSeqs(MaxBits) : CtorIL(k, b)
+    \/ \E bl \in LimbSeqs(MaxBits \div W) : CtorBlocks(k, bl)
     \/ \E bl \in LimbSeqs(BlockCount(MaxBits)), n \in Sizes : CtorView(k, bl, n)
+
+\* calls on one object that start from its current content
+NextSelf(k) ==
+    \/ Clear(k) \/ PopBack(k) \/ MaxSize(k)
+    \/ \E n \in Sizes : Resize1(k, n) \/ ResizeView(k, n) \/ Reserve(k, n)
+    \/ Reserve(k, MaxBits + W)
+    \/ \E n \in Sizes, v \in Bit : AssignNV(k, n, v) \/ Resize(k, n, v)
+    \/ \E b \in BitSeqs(MaxBits) : AssignIL(k, b)
+    \/ \E bl \in LimbSeqs(MaxBits \div W) : AssignBlocks(k, bl)
     \/ \E v \in Bit : PushBack(k, v)
     \/ SetAll(k) \/ ResetAll(k) \/ FlipAll(k) \/ Not(k)
     \/ \E i \in Idx(k) : Set1(k, i) \/ ResetBit(k, i) \/ Flip(k, i) \/ (\E v \in Bit : Set(k, i, v))
     \/ \E p \in 0..MaxShift : ShlEq(k, p) \/ ShrEq(k, p) \/ Shl(k, p) \/ Shr(k, p)
-    \/ \E sf \in {0, 1} : AndEq(k, sf) \/ OrEq(k, sf) \/ XorEq(k, sf) \/ And(k, sf) \/ Or(k, sf) \/ Xor(k, sf)
     \/ \E i \in 0..(BlockCount(MaxBits) * W + 1), c \in {"c", "m"} : At(k, c, i)
     \/ \E i \in Idx(k), path \in ReadPaths : Read(k, path, i)
     \/ \E i \in Idx(k), path \in WritePaths, wk \in WriteKinds, v \in Bit, j \in Idx(k) :
@@ -294,12 +308,32 @@ NextK(k) ==
           /\ RefWrite(k, path, i, wk, v, j)
     \/ \E i \in 0..msz[k], j \in 0..msz[k], v \in Bit : Fill(k, i, j, v)
 
+NextK(k) == NextPair(k) \/ NextCtor(k) \/ NextSelf(k)
+
 \* representative contents for a non-target object (deep single-target configurations)
 RepOther == UNION {{[i \in 1..n |-> 1], [i \in 1..n |-> i % 2]} : n \in {0, MaxBits - W, MaxBits - 1, MaxBits}}
 NoOther  == {}
 Both     == {1, 2}
 OnlyFirst == {1}
-Next == (\E k \in Targets : NextK(k)) \/ (\E k \in {1, 2} \ Targets : \E b \in OtherSeqs : CtorIL(k, b))
+AllOther  == BitSeqs(MaxBits)
+NextFull == (\E k \in Targets : NextK(k)) \/ (\E k \in {1, 2} \ Targets : \E b \in OtherSeqs : CtorIL(k, b))
+(* The factored relation.  Every call is a function of the representation of the object(s) it names, and RepInv (checked
+   in the same run) makes the representation a function of the abstract content.  So it is enough to take
+   - the constructors (their effect does not depend on the state) from the initial state only,
+   - the one-object calls from every content of the target while the other object is empty,
+   - the two-object calls from every pair (target content, other content),
+   and to give the other object each of OtherSeqs once, as an owning bitset or as a view.  With OtherSeqs = AllOther this
+   covers every (state, call, argument) triple of NextFull on two objects, at a cost linear in the number of pairs. *)
+OtherEmpty(k) == msz[Other(k)] = 0 /\ kind[Other(k)] = "own"
+ViewLimbs(b) == [i \in 1..BlockCount(Len(b)) |-> <<LimbFrom([j \in 1..W |-> IF (i - 1) * W + j <= Len(b) THEN b[(i - 1) * W + j] ELSE 1], 1)>>]
+NextSplit ==
+    \/ \E k \in Targets :
+          \/ NextPair(k)
+          \/ OtherEmpty(k) /\ NextSelf(k)
+          \/ OtherEmpty(k) /\ msz[k] = 0 /\ kind[k] = "own" /\ NextCtor(k)
+    \/ \E k \in {1, 2} \ Targets : msz[k] = 0 /\ kind[k] = "own" /\ \E b \in OtherSeqs :
+          CtorIL(k, b) \/ CtorView(k, ViewLimbs(b), Len(b))
+Next == IF SplitNext THEN NextSplit ELSE NextFull
 SizeBound == msz[1] <= MaxBits /\ msz[2] <= MaxBits
 Spec == Init /\ [][Next]_ivars
 absview == <<buf, msz, kind>>
